@@ -139,7 +139,7 @@ func H16b() {
 	var d decoder
 	f, _ := NewFile(FileTypeActivity, NewHeader(V20, true))
 	d.file = f
-	d.opts.unknownFields, d.opts.unknownMessages = true, true
+	vCountingOptions(&d)
 	vMakeMap(&d.unknownFields)
 	vMakeMap(&d.unknownMessages)
 	vMapOrderSym(true)
